@@ -37,8 +37,8 @@ type CaseC06 struct {
 var zonePool = []string{"UTC", "America/Los_Angeles", "America/New_York", "Asia/Tokyo", "Pacific/Kiritimati", "Pacific/Pago_Pago", "Europe/Sofia", "Europe/Berlin", "FIXED:+05:30", "FIXED:-09:30", "Australia/Lord_Howe"}
 
 // basePool: windows of log days that contain or follow a daylight-saving change (US 2021-03-14 and
-// 2021-11-07, EU 2021-03-28 and 2021-10-31, Lord Howe 2021-04-04 and 2021-10-03), the year end and a leap day.
-var basePool = []string{"2021-01-20", "2021-03-10", "2021-03-24", "2021-10-27", "2021-11-03", "2021-04-01", "2021-09-29", "2021-12-27", "2024-02-25", "2021-03-16", "2021-11-20"}
+// 2021-11-07, EU 2021-03-28 and 2021-10-31, Lord Howe 2021-04-04 and 2021-10-03), the year end and a leap day (incl. the end of a leap year).
+var basePool = []string{"2021-01-20", "2021-03-10", "2021-03-24", "2021-10-27", "2021-11-03", "2021-04-01", "2021-09-29", "2021-12-27", "2024-02-25", "2021-03-16", "2021-11-20", "2020-12-27", "2024-12-28", "2020-02-26"}
 
 var clockPool = []int64{
 	time.Date(2021, 1, 25, 0, 0, 0, 0, time.UTC).UnixNano(),
